@@ -189,7 +189,14 @@ class FeArray(np.ndarray):
                 )
 
         if elementwise:
-            inputs = FeArray._align(inputs)
+            where = kwargs.get("where") if kwargs else None
+            if isinstance(where, FeArray):
+                # a mask field selects points (or components) like an operand: it is aligned with them
+                *inputs, where = FeArray._align(tuple(inputs) + (where,))
+                kwargs = dict(kwargs, where=where)
+                inputs = tuple(inputs)
+            else:
+                inputs = FeArray._align(inputs)
 
         # ndarray refuses to run a ufunc on a subclass that overrides __array_ufunc__, so hand
         # it plain views -- of the `out` and `where` operands too, or the call comes straight
